@@ -18,7 +18,7 @@ PROPS = {
                              "readJournal (enc bs ++ take n (enc b) ++ zeros m) = (bs, |enc bs|, no error)",
             "c03_repair_then_append": "the file truncated to finalLen, with any batch b' appended, reads back as bs ++ [b']",
         },
-        engines=[dict(bin="journal", args=["--mode", "c03"], cases_quick=48, cases_thorough=800,
+        engines=[dict(bin="journal", args=["--mode", "c03"], cases_quick=48, cases_thorough=240,
                       profiles=["release"], profiles_thorough=["release", "dev"])],
         rule="case = random program (single writes, removes, weak removes, clears, multi-keyspace batches, "
              "single-writer transactions; values on both sides of the 4096 compression threshold; lz4/none) run on "
@@ -45,7 +45,7 @@ PROPS = {
             "c15_roundtrip": "readJournal (encodeBatches bs) = (bs, length, no error) for every list of well-formed batches, "
                              "any per-item compression choice",
         },
-        engines=[dict(bin="journal", args=["--mode", "c15"], cases_quick=48, cases_thorough=600,
+        engines=[dict(bin="journal", args=["--mode", "c15"], cases_quick=48, cases_thorough=200,
                       profiles=["release"], profiles_thorough=["release", "dev"])],
         rule="case = random program as for C03 under journal compression lz4 or none; model writer bytes == file bytes; "
              "model reader == real reader == batches written; reopen under the *other* compression setting; "
@@ -249,11 +249,12 @@ DB_TB = ["log-level model: a keyspace's tables / memtables are the operations th
 PROPS["C04"] = dict(
     title="Close and reopen reproduces exactly the same logical content",
     modules=["FjallModel.Props.C04"],
-    theorems=["Fjall.Db.c04_reopen_same_partial", "Fjall.Db.c04_reopen_same_keyspaces", "Fjall.Db.c04_replay_idempotent", "Fjall.Db.c04_ingested_tombstone_comes_back"],
+    theorems=["Fjall.Db.c04_reopen_same", "Fjall.Db.c04_reopen_same_keyspaces", "Fjall.Db.c04_replay_idempotent", "Fjall.Db.c04_ingested_tombstone_comes_back"],
     statements={
-        "c04_reopen_same_partial": "forall histories (create/delete keyspace, write, batch, clear, rotate, flush, bulk ingestion of values, lowered persisted seqno after tombstone "
-                                   "eviction, earlier reopen cycles; no journal rotation): abs (recover db) id ~ abs db id for every keyspace id, where recover replays exactly the "
-                                   "journal records above the highest seqno found in the keyspace's tables (the repaired skip rule)",
+        "c04_reopen_same": "forall histories (create/delete keyspace, write, batch, clear, memtable rotate, flush, bulk ingestion of values, lowered persisted seqno after tombstone "
+                           "eviction, journal rotation, eviction of sealed journals by maintenance, earlier reopen cycles): abs (recover db) id ~ abs db id for every keyspace id, where "
+                           "recover replays the sealed journals oldest first, then the active one, each record only if above the highest seqno found in the keyspace's tables, and seals "
+                           "the memtables after each sealed journal",
         "c04_ingested_tombstone_comes_back": "counterexample (known finding F13-ingest): with an ingested tombstone evicted by compaction, recover brings the deleted key back",
         "c04_reopen_same_keyspaces": "the same (id, name) list comes back",
         "c04_replay_idempotent": "re-applying an already reflected clear-free suffix followed by the rest changes nothing",
@@ -270,20 +271,20 @@ PROPS["C04"] = dict(
     level_text="Lean 4 theorem: recovery reproduces every keyspace for all histories without journal rotation (inductive coverage invariant: seqno order, journaled part of the tables, "
                "stale re-replayed tail, no live value above the persisted seqno; re-applying a tombstone-only segment is invisible), "
                "tied to the real crate by an engine that also exercises sealed journals, eviction, deletion and crash images",
-    level_note="partial: sealed-journal recovery (skip rule) and eviction safety are compared by the engine; their theorem is stage 2",
+    level_note="the theorem covers sealed journals and eviction; compaction filters and ingested tombstones are outside ProgWF (known findings F13)",
     technique="Lean 4 proof (coverage invariant over operation histories, last-writer-wins idempotence) + differential correspondence",
     design_ref="6 C04",
 )
 PROPS["C02"] = dict(
     title="Acknowledged writes survive a process crash, in commit order",
     modules=["FjallModel.Props.C02"],
-    theorems=["Fjall.Db.c02_crash_prefix_partial", "Fjall.Db.c02_crash_mid_operation", "Fjall.Journal.c03_torn_tail"],
+    theorems=["Fjall.Db.c02_crash_prefix", "Fjall.Db.c02_crash_mid_operation", "Fjall.Journal.c03_torn_tail"],
     statements={
-        "c02_crash_prefix_partial": "crash at an operation boundary: recovery yields exactly the state of all acknowledged operations (all keyspaces)",
+        "c02_crash_prefix": "crash at an operation boundary: recovery yields exactly the state of all acknowledged operations (all keyspaces)",
         "c02_crash_mid_operation": "the in-flight batch is in the journal completely or not at all (c03_torn_tail); both cases recover to the state of a prefix of the committed operations",
     },
     engines=[dict(bin="dbeng", args=["--mode", "c02"], cases_quick=480, cases_thorough=10000, profiles=["release"]),
-             dict(bin="journal", args=["--mode", "c03"], cases_quick=24, cases_thorough=400, profiles=["release"])],
+             dict(bin="journal", args=["--mode", "c03"], cases_quick=24, cases_thorough=96, profiles=["release"])],
     rule="dbeng: crash images (directory copies with 0 worker threads = process-crash image) at random points of programs with flushes, journal rotation and eviction, "
          "reopened and compared with 'every acknowledged operation'; journal: every byte cut of the last batch x zero paddings, real reader + sampled real reopen + append + reopen",
     trusted_base=DB_TB,
@@ -296,9 +297,10 @@ PROPS["C02"] = dict(
 PROPS["C10"] = dict(
     title="A journal file is deleted only when nothing in it is still needed",
     modules=["FjallModel.Props.C10"],
-    theorems=["Fjall.Db.c10_evicts_oldest_flushed_only", "Fjall.Db.c10_watermark_covers_memory", "Fjall.Db.c10_returns_to_one"],
+    theorems=["Fjall.Db.c10_evicts_oldest_flushed_only", "Fjall.Db.c10_watermark_covers_memory", "Fjall.Db.c10_returns_to_one", "Fjall.Db.c10_crash_after_eviction_loses_nothing"],
     statements={
         "c10_evicts_oldest_flushed_only": "maintenance removes a prefix of the sealed journals only, touches nothing else, and each removed journal had every watermark (ks, lsn) satisfied: keyspace deleted, or persisted >= lsn, or nothing held in memory",
+        "c10_crash_after_eviction_loses_nothing": "forall reachable states (any history incl. journal rotations, flushes in any order, earlier evictions, reopens): maintenance followed by a crash and recovery yields the content before",
         "c10_returns_to_one": "if every live keyspace holds nothing in memory (all flushed), maintenance removes every sealed journal (repaired, F10)",
         "c10_watermark_covers_memory": "at journal rotation every keyspace with unflushed records gets a watermark >= each of their seqnos",
     },
@@ -306,7 +308,7 @@ PROPS["C10"] = dict(
     rule="as C04; journal_count after every event vs the model's eviction rule (the persisted seqno after last-level compactions is an observed input that only "
          "lowers the model's value); crash images after evictions; 'flush every keyspace + maintenance => one journal file' as an implementation-only oracle",
     trusted_base=DB_TB,
-    assumptions=["end-to-end 'a crash right after the unlink loses nothing' is checked by the engine's crash images; the sealed-journal recovery theorem is stage 2"],
+    assumptions=["crash = process crash at an operation boundary (files as of the last completed operation); torn tails are C03"],
     level_text="Lean 4 theorems about the eviction rule and the rotation watermarks; the end-to-end 'crash after unlink loses nothing' is checked on crash images by the engine",
     level_note="partial: end-to-end theorem over sealed journals is stage 2; the real >64 MB trigger is replaced by a hook calling the same rotate_journal",
     technique="Lean 4 proof (prefix-removal induction, fold maximum) + differential correspondence",
